@@ -1110,7 +1110,7 @@ Proof.
   destruct (S1 C) as [-> ?]. destruct (S2 C) as [-> ?]. eauto 10.
 Qed.
 
-(* ---- repaired witnesses, refutations (the faithful model violates S outside the guard), non-vacuity ---- *)
+(* ---- repaired witnesses, non-vacuity ------------------------------------------------------------------ *)
 Open Scope string_scope.
 Definition dfn (id : nat) (name : string) (pid : nat) (ps : list string) (body : list sexp) : sexp :=
   SList id (SSym "defun" :: SSym name :: SList pid (map SSym ps) :: body).
@@ -1139,21 +1139,9 @@ Example stale_lambda_repaired :
   runM 50 minit stale_ops2 = [(Val (VInt 3), [])] /\ runS 50 sinit stale_ops2 = [(Val (VInt 3), [])].
 Proof. vm_compute. auto 10. Qed.
 
-(* (nodef (emit 5)) compiled: the placeholder call evaluates its argument, then signals undefined-function;
-   (nodef (+ 1 (list 2))) compiled: the error in the argument masks undefined-function *)
+(* a call of a function that has no definition, in a code object that is compiled before it is evaluated
+   (witnesses of the lookup-time theorems in ProofsLate.v) *)
 Definition undef_ops (arg : sexp) : list op := [OLoad 0 [SList 1 [SSym "nodef"; arg]]; OCompile 0; ORun 0].
-Lemma undefined_args_first_witness :
-  runS 50 sinit (undef_ops (SList 2 [SSym "emit"; SInt 5])) = [(Err EUndefined, [])] /\
-  runM 50 minit (undef_ops (SList 2 [SSym "emit"; SInt 5])) = [(Err EUndefined, [VInt 5])] /\
-  runS 50 sinit (undef_ops (SList 2 [SSym "+"; SInt 1; SList 3 [SSym "list"; SInt 2]])) = [(Err EUndefined, [])] /\
-  runM 50 minit (undef_ops (SList 2 [SSym "+"; SInt 1; SList 3 [SSym "list"; SInt 2]])) = [(Err EType, [])].
-Proof. vm_compute. auto 10. Qed.
-Theorem undefined_call_equal_refuted :
-  ~ (forall n ops, runM n minit ops = runS n sinit ops).
-Proof.
-  intros H. specialize (H 50 (undef_ops (SList 2 [SSym "emit"; SInt 5]))).
-  destruct undefined_args_first_witness as (S1 & M1 & _). rewrite S1, M1 in H. discriminate.
-Qed.
 
 (* the witness of the repaired finding C08-bare-symbol-body (repo_fixes/C08-4):
    (defun f (x) v) (defun g (v) (f 0)) (defvar v 1) (g 5), the code object evaluated twice.  The body form v is
